@@ -279,11 +279,10 @@ def execute(case, ctx):
         if extra:
             d.update(extra)
         if sig in ("sa-terms", "sa-table", "c4-terms", "c4-table", "gf-vs-reference") and near_merge_resolution(ref.get("eigen")):
-            # known finding D22 (known_findings.json): two levels of the model are about 1e-8 apart, the resolution with which like terms
-            # are collected; the tolerance comparator of the term lists is not transitive there and a list loses terms when it is rebuilt
-            # from a broadcast, so ranks that did not compute a part evaluate it differently
+            # the signature of D22 (fixed in 28e1c0c, see known_findings.json): two levels of the model are about 1e-8 apart, the resolution
+            # with which like terms are collected.  A fixed entry suppresses nothing: this is reported like any other violation.
             sig = "term-merge-near-resolution"
-            d["what"] = "[D22] " + d["what"]
+            d["what"] = "[levels ~1e-8 apart, cf. D22] " + d["what"]
         return Result("fail", classes, True, d, sig)
     if status.startswith("timeout"):
         return fail("the %d-rank run did not terminate within %.0f s (single rank: %.2f s)" % (P, timeout, t1), "hang")
@@ -481,14 +480,15 @@ def pre_campaign(tier, seed):
             else:
                 inconclusive += 1
         # fixed near-resonance cases: levels split by less than the default resonance tolerance (transverse field 1e-10 on a Hubbard atom /
-        # on one site of a dimer), examined with a finer user tolerance, on 2 and 3 ranks
+        # on one site of a dimer), examined with a finer user tolerance, on 2 and 3 ranks; and levels split by about the tolerance itself
+        # (fields 1e-8 and 5e-9, default tolerances), where D22 was found
         nnear = 0
-        for (P, nsite) in ([] if failures else [(2, 1), (3, 1), (2, 2)]):
+        for (P, nsite, h_) in ([] if failures else [(2, 1, 1e-10), (3, 1, 1e-10), (2, 2, 1e-10), (3, 2, 1e-8), (5, 2, 5e-9)]):
             labs = ["A", "B"][:nsite]
             terms = [gen.P("coulombS", l, [2.0, 0.0], [-1.0, 0.0]) for l in labs] + ([gen.P("hop3", "A", "B", [0.5, 0.0])] if nsite == 2 else [])
-            terms += gen.with_hc([1e-10, 0.0], [[1, "A", 0, 0], [0, "A", 0, 1]])
+            terms += gen.with_hc([h_, 0.0], [[1, "A", 0, 0], [0, "A", 0, 1]])
             mdl = {"cplx": False, "sites": [[l, 1, 2] for l in labs], "terms": terms, "order_spins": 0, "symm": {"mode": "default"}, "beta": 4.0, "family": "wide"}
-            case = {"model": mdl, "tol2": [1e-12, 1e-16, 1e-5], "P": P, "T": 1, "delay_seed": 1, "delay_us": 0, "sa": [0, 1, 0, 1], "sa_clear": 0,
+            case = {"model": mdl, "tol2": [1e-12, 1e-16, 1e-5] if h_ < 1e-9 else None, "P": P, "T": 1, "delay_seed": 1, "delay_us": 0, "sa": [0, 1, 0, 1] if h_ < 1e-9 else [0, 0, 0, 0], "sa_clear": 0,
                     "keys": [[0, 1, 0, 1], [0, 1, 1, 0], [0, 0, 0, 0]], "split": 0, "clear": 0, "triples": [[0, 0, 0], [0, -1, 0]], "eval": [[0, 0, 0], [1, -2, 1], [0, -1, 2]]}
             ctx.begin_case()
             r = execute(case, ctx)
